@@ -26,7 +26,11 @@ fn u64_of(bytes: &[u8; 8]) -> u64 {
     u64::from_le_bytes(*bytes)
 }
 
-pub fn proj_bank(env: &Env, b: &Bank) -> Value {
+pub fn key_big(k: &Pubkey) -> Value {
+    big_u(u128::from_be_bytes(k.to_bytes()[..16].try_into().unwrap()))
+}
+
+pub fn proj_bank(env: &Env, bk: &Pubkey, b: &Bank) -> Value {
     let n = |k: &Pubkey| env.names.name(k);
     let c = &b.config;
     let irc = &c.interest_rate_config;
@@ -42,6 +46,7 @@ pub fn proj_bank(env: &Env, b: &Bank) -> Value {
         .collect();
     let okeys: Vec<Value> = c.oracle_keys.iter().map(|k| json!(n(k))).collect();
     json!({
+        "key": key_big(bk),
         "group": n(&b.group), "mint": n(&b.mint), "dec": b.mint_decimals,
         "asv": wfx(&b.asset_share_value), "lsv": wfx(&b.liability_share_value),
         "tas": wfx(&b.total_asset_shares), "tls": wfx(&b.total_liability_shares),
@@ -94,7 +99,7 @@ pub fn proj_account(env: &Env, a: &MarginfiAccount) -> Value {
         .iter()
         .map(|b| {
             if b.active != 0 {
-                json!({"act": 1, "bank": n(&b.bank_pk), "key": big_u(u128::from_be_bytes(b.bank_pk.to_bytes()[..16].try_into().unwrap())),
+                json!({"act": 1, "bank": n(&b.bank_pk), "key": key_big(&b.bank_pk),
                     "tag": b.bank_asset_tag, "a": wfx(&b.asset_shares), "l": wfx(&b.liability_shares),
                     "emis": wfx(&b.emissions_outstanding), "lu": big_u(b.last_update as u128)})
             } else {
@@ -206,7 +211,7 @@ pub fn project(env: &Env) -> Map<String, Value> {
             let disc: [u8; 8] = a.data[..8].try_into().unwrap();
             if disc == d::BANK {
                 if let Some(b) = zc::<Bank>(&a.data) {
-                    banks.insert(name, proj_bank(env, &b));
+                    banks.insert(name, proj_bank(env, k, &b));
                 }
             } else if disc == d::ACCOUNT {
                 if let Some(x) = zc::<MarginfiAccount>(&a.data) {
